@@ -261,6 +261,24 @@ fn scenarios(thorough: bool) -> Vec<Scn> {
     v
 }
 
+/// The windowed counters are halved when the detector's one-second window rolls over.  A flood of only a few
+/// frames above the threshold that straddles a roll-over (the connection is about one second old when a loaded
+/// machine gets to it) legitimately stays under the threshold; a real flood goes on and trips in the next
+/// window.  So a flood scenario that saw no error is run again on a fresh connection, up to three times: a
+/// detector that does not count the frames fails all of them.
+fn window_retry(s: &Scn, f: impl Fn() -> Res) -> Res {
+    let mut r = f();
+    for _ in 0..2 {
+        let flood = matches!(&s.want, Want::Conn(c, _) if c.contains(&CALM));
+        if !(flood && r.viols.iter().any(|(c, _)| c == "bb-no-error")) {
+            break;
+        }
+        r = f();
+        r.summary.push_str(" (again: the first attempt may have straddled a window roll-over)");
+    }
+    r
+}
+
 struct Res {
     name: &'static str,
     summary: String,
@@ -738,8 +756,8 @@ fn main() {
     let scns: Vec<Scn> = scenarios(thorough).into_iter().filter(|s| only.as_deref().map_or(true, |o| o == s.name)).collect();
     let sibs: Vec<Scn> = sibling_scenarios().into_iter().filter(|s| only.as_deref().map_or(true, |o| o == s.name)).collect();
     let results: Vec<Res> = std::thread::scope(|sc| {
-        let mut hs: Vec<_> = scns.iter().map(|s| sc.spawn(move || run(front, s))).collect();
-        hs.extend(sibs.iter().map(|s| sc.spawn(move || run_siblings(front, s))));
+        let mut hs: Vec<_> = scns.iter().map(|s| sc.spawn(move || window_retry(s, || run(front, s)))).collect();
+        hs.extend(sibs.iter().map(|s| sc.spawn(move || window_retry(s, || run_siblings(front, s)))));
         hs.extend(FAULTS.iter().filter(|n| only.as_deref().map_or(true, |o| o == **n)).map(|n| sc.spawn(move || run_fault(front, n))));
         hs.into_iter().map(|h| h.join().unwrap_or(Res { name: "?", summary: "scenario thread panicked".into(), viols: vec![("bb-infra".into(), "scenario thread panicked".into())] })).collect()
     });
